@@ -56,3 +56,9 @@ FAMILIES.append(Family("generators", gen_generators, _c15.impl_scripts, _c15.mod
                        _c15.oracle_scripts, _c15.nontrivial_scripts, imports=["Model.Generators"],
                        project=_c15.project_scripts, shrink=_c15.shrink_scripts, describe=_c15.describe_scripts,
                        shard=100, coq_shard=30))
+
+
+# fixed feature programs (lib/progs.py CORPUS_FEATURES) run first under every seed
+for _f in FAMILIES:
+    if _f.name in ("programs", "roundtrip"):
+        _f.corpus = list(_f.corpus or []) + [dict(c) for c in progs.CORPUS_FEATURES]
